@@ -706,6 +706,19 @@ Definition complete_manifest (img : image) (m : N) : Prop :=
   exists recs eds, iget img (FManifest m) = Some recs /\ edits_of recs = Some eds /\
     manifest_ok (replay eds) = true /\ read_tables img (mv_files (replay eds)) <> None.
 
+(* testing aid: batch b (held by log n) is lost in image img: the database
+   exists but recovery fails, or b is neither replayed nor below log_number *)
+Definition brec_eqb (a b : brec) : bool := (fst a =? fst b) && list_eqb wop_eqb (snd a) (snd b).
+Definition lost_in (img : image) (n : N) (b : brec) : bool :=
+  match iget img FCurrent with
+  | None => false
+  | Some _ =>
+      match recover img with
+      | None => true
+      | Some s => negb (existsb (brec_eqb b) (applied_batches s)) && negb (n <? r_log s)
+      end
+  end.
+
 (* stages *)
 Definition is_rename (e : fev) : bool := match e with ERename _ _ => true | _ => false end.
 Definition edit_deletes (e : fev) : bool :=
